@@ -18,6 +18,8 @@ func chunkSize(kind string) int {
 		return 25
 	case strings.HasPrefix(kind, "small"):
 		return 20000
+	case strings.HasPrefix(kind, "tiny") || strings.HasPrefix(kind, "difftiny"):
+		return 10000
 	case strings.HasPrefix(kind, "faultenum:"):
 		return 1920
 	}
@@ -103,7 +105,7 @@ func shapeOf(h *History) uint64 {
 // checkCase runs one case under all monitors.
 func checkCase(prop string, c *Case, trace bool) *CaseResult {
 	switch {
-	case strings.HasPrefix(c.Kind, "hist:") || strings.HasPrefix(c.Kind, "small") || strings.HasPrefix(c.Kind, "pool:") || strings.HasPrefix(c.Kind, "faultenum:"):
+	case strings.HasPrefix(c.Kind, "hist:") || strings.HasPrefix(c.Kind, "small") || strings.HasPrefix(c.Kind, "tiny") || strings.HasPrefix(c.Kind, "pool:") || strings.HasPrefix(c.Kind, "faultenum:"):
 		w := newWorld(c.H, true, trace)
 		if prop == "C05" {
 			w.mon.checkDepth = true
@@ -210,6 +212,11 @@ func checkFloor(prop, tier string, total *Summary) string {
 // witnessClass names the feature set of a (shrunk) witness so that a known
 // finding does not mask a different failure of the same rule.
 func witnessClass(c *Case, rule string) string {
+	if rule == "C13.rootcause-nested-dig-error" {
+		// the rule itself pins the input (a user function's error wrapping another container's dig error) and
+		// the observed wrong answer (the foreign error's root cause): one class
+		return "user-error-wraps-foreign-dig-error"
+	}
 	if c == nil || c.H == nil {
 		if c != nil {
 			return c.Kind
